@@ -51,6 +51,11 @@ CLAIMED = {
              "for both Morton implementations, which therefore agree. Hilbert: only that the walk's side length is round_pow2(max extent) and that the position depends on the extents through it alone; "
              "bijectivity/adjacency of the walk are NOT decided (data-dependent loop).",
         note="N in 1..3 (quick) / 1..4 (thorough); coordinate types size_t/int (quick) + unsigned (thorough); x86 pdep semantics as modelled; Hilbert walk correctness not claimed"),
+    "C16": dict(
+        level="proof", design="5/C16", technique="sound effect analysis of optimised LLVM IR (store destinations via points-to, atomics/volatile, globals, callee whitelist) + token scan for shared-state constructs",
+        text="Schedule-independent: every store a lookup can perform targets lookup-local memory, only constant globals are read, and the only callees are the backend query and pure functions - for every layer "
+             "over the opaque probe and for real array-backed stacks, with the view passed by pointer, in NDEBUG and assertion-enabled builds. Readers of memory nobody writes cannot race; a function of (view, coordinate) is deterministic.",
+        note="writers to distinct coordinates: disjointness rests on C01/C14 injectivity; C++ memory model; opaque probe stands for any conforming backend"),
     "C17": dict(
         level="other", design="5/C17", technique="exact value-identity (D-route) reading of loop-free LLVM IR for constructors and accessors; make_parameter_pack_for over stacks with one shared configuration type",
         text="Each configuration field read back through get_configuration()/get_backend() must be exactly the scalar it was constructed from, for every configurable layer (both construction routes) and for "
